@@ -11,7 +11,7 @@ static const long long CHUNKS[] = {0, 1, 2, 3, 4, 5, 7, 8, 13, 16, 17, 32, 64, 4
 static const int SIZES[] = {0, 1, 19, 20, 21, 64, 300, 5000};
 static int one(const unsigned char *data, size_t size) {
   if (size < 3) return 0;
-  int combo = data[0] % 12, entry = (data[0] >> 4) & 3;
+  int combo = (data[0] & 15) % 12, entry = (data[0] >> 4) & 3; int debug = data[0] & 64, twice = data[0] & 128;
   int internal = data[1] & 1; int n = SIZES[(data[1] >> 1) & 7]; int fitting = data[1] & 16; int startcls = (data[1] >> 5) & 7;
   long long chunk = CHUNKS[data[2] & 15];
   char *text = malloc(size - 3 + 1); memcpy(text, data + 3, size - 3); text[size - 3] = 0;
@@ -19,12 +19,14 @@ static int one(const unsigned char *data, size_t size) {
   assemblyline_t a = asm_create_instance(buf, n); if (!a) return 0;
   asm_mov_imm(a, combo % 3); asm_sib_index_base_swap(a, (combo / 3) % 2); asm_sib_no_base(a, (combo / 6) % 2);
   if (fitting) asm_set_chunk_size(a, (size_t)chunk);
+  if (debug) asm_set_debug(a, 1);
   int limit = internal ? 6000 : n;
   int start = startcls == 0 ? 0 : startcls == 1 ? limit : startcls == 2 ? limit / 2 : startcls == 3 ? (limit > 20 ? limit - 20 : 0) : startcls == 4 ? (limit > 21 ? limit - 21 : 0) : startcls == 5 ? 1 : startcls == 6 ? (limit > 19 ? limit - 19 : 0) : 7 % (limit + 1);
   if (start > limit) start = limit; /* offsets are documented for 0..n only */
   asm_set_offset(a, start);
   int rc, cnt = 0;
   if (entry == 0 || entry == 2) rc = asm_assemble_str(a, text); else rc = asm_assemble_string_counting_chunks(a, text, (int)chunk, &cnt);
+  if (twice) { int rc2 = (entry & 1) ? asm_assemble_string_counting_chunks(a, text, (int)chunk, &cnt) : asm_assemble_str(a, text); if (rc2) rc = rc2; }
   int off = asm_get_offset(a);
   /* make MSan look at every byte the library claims to have produced */
   unsigned long sum = 0; if (rc == 0 && off > start) { const unsigned char *c = asm_get_code(a); for (int i = start; i < off; i++) sum += c[i]; }
@@ -33,6 +35,7 @@ static int one(const unsigned char *data, size_t size) {
   return rc;
 }
 int main(int argc, char **argv) {
+  if (!freopen("/dev/null", "w", stdout)) return 2;   /* the debug listing goes to stdout */
   for (int i = 1; i < argc; i++) { FILE *f = fopen(argv[i], "rb"); if (!f) continue; static unsigned char b[1 << 20]; size_t n = fread(b, 1, sizeof b, f); fclose(f); one(b, n); }
   return 0;
 }
